@@ -19,6 +19,7 @@ RULE = ('for every generated spec the python_type_stubs output of each namespace
         'names, alias class names and route objects; every field / tag / helper annotation is compared with an '
         'independent Stone->PEP 484 mapping driven by the model, and every name used in an annotation must be '
         'imported or defined in the stub. distinct = distinct (declaration kind, annotation shape) cells')
+RULE += ' ' + 'Annotation-type classes are compared too (constructor parameters, properties).'
 ASSUMPTIONS = ['Text and str are the same annotation; ROUTES and private reflection attributes are not compared']
 REQUIRED_COUNTERS = ['stubs_parsed', 'annotations_compared']
 
